@@ -1,4 +1,5 @@
 import LP.Model.Feasible
+import LP.Model.Complement
 import LP.Driver.Value
 namespace LP.Driver
 open LP LP.QPoly
@@ -180,6 +181,27 @@ def checkEval2 (op : String) (args res : List String) : Verdict :=
           | none => .skip "cmp out of fuel"
           | some l => if l.all id then .ok tag else .viol tag "a returned root is not the corresponding exact root"
     | _, _, _, _ => .skip "parse"
+  | "infeas", [_cs, fss], [rss] =>
+    -- poly::infeasible_regions(p, m, cond) must be the complement of the feasible set just validated (same line pair)
+    match pVSet? fss, pVSet? rss with
+    | some S, some R =>
+      let ends := (S ++ R).flatMap (fun i => [i.1, i.2.2.1])
+      -- every comparison the one-pass complement needs must be decided by the exact comparison
+      if ends.any (fun a => ends.any (fun b => (Val.cmp a b).isNone)) then .skip "comparison out of fuel" else
+      let lt : Val → Val → Bool := fun a b => Val.cmp a b == some (-1)
+      let eq : Val → Val → Bool := fun a b => Val.cmp a b == some 0
+      let toI : (Val × Bool × Val × Bool) → Compl.Itv Val := fun i => ⟨i.1, i.2.1, i.2.2.1, i.2.2.2⟩
+      -- precondition of the helper (and of the theorem): a sorted list of disjoint non-empty intervals
+      let sorted := ((S.zip S.tail).all (fun p => lt p.1.2.2.1 p.2.1 || (eq p.1.2.2.1 p.2.1 && (p.1.2.2.2 || p.2.2.1))))
+      if !sorted then .viol "ev/fs-nf" "feasible set not sorted / not disjoint" else
+      let want := Compl.complement lt eq Val.minf Val.pinf (S.map toI)
+      let same := want.length = R.length && (want.zip R).all (fun p =>
+        eq p.1.lo p.2.1 && eq p.1.hi p.2.2.2.1 &&
+        -- a point region may be printed as [v]
+        ((p.1.loOpen == p.2.2.1 && p.1.hiOpen == p.2.2.2.2)))
+      if same then .ok s!"ev/infeas/{S.length}/{R.length}"
+      else .viol "ev/infeas" s!"infeasible regions are not the complement of the feasible set: expected {want.length} regions, got {R.length}"
+    | _, _ => .skip "parse"
   | "fs", [ps, cs, ng, as], [ss] =>
     match pPolyRaw? ps, pNat? cs, pNat? ng, pAsg? as, pVSet? ss with
     | some raw, some c, some ng, some av, some got =>
